@@ -55,7 +55,9 @@ pub fn from_data(d: &ArrayData) -> Option<Node> {
 pub fn dump(a: &dyn Array) -> Option<Args> {
     let d = a.to_data();
     let node = from_data(&d)?;
-    let mut out: Args = vec![g(d.validate_full().is_ok() as u8)];
+    let vf = d.validate_full();
+    if let (Err(e), true) = (&vf, std::env::var("VERIF_PANIC_MSG").is_ok()) { eprintln!("validate_full of a returned array: {e}"); }
+    let mut out: Args = vec![g(vf.is_ok() as u8)];
     c09::encode(&node, &mut out);
     Some(out)
 }
@@ -75,7 +77,9 @@ pub fn run(op: &str, a: &Args) -> Option<Args> {
     let k = to_usize(&a[0]);
     let params = to_i64s(&a[1]);
     let nin = to_usize(&a[2]);
-    let Some(ins) = decode_inputs(a, 3, nin) else { return Some(skip()) };
+    // building the typed input arrays may itself panic for nested Struct layouts that carry offsets (known
+    // finding F3: ArrayData::slice and StructArray::from apply the offset twice): no call, nothing to check
+    let ins = match std::panic::catch_unwind(std::panic::AssertUnwindSafe(|| decode_inputs(a, 3, nin))) { Ok(Some(v)) => v, _ => return Some(skip()) };
     // C01 constrains what a safe operation RETURNS; a (safe) panic returns nothing: skipped, not a violation
     let out = std::panic::catch_unwind(std::panic::AssertUnwindSafe(|| run_kernel(k, &params, &ins)));
     match out { Ok(Some(Ok(o))) => Some(dump(o.as_ref()).unwrap_or_else(skip)), _ => Some(skip()) }
